@@ -757,7 +757,13 @@ func ToEntry(n Node) (e *Entry) {
 			}
 		case "action":
 			for _, r := range fv.Interface().([]*Action) {
-				e.add(r.Name, ToEntry(r))
+				action := ToEntry(r)
+				if action.RPC == nil {
+					// An action without input and output statements has
+					// both all the same (RFC 7950 7.15), like an rpc.
+					action.RPC = &RPCEntry{}
+				}
+				e.add(r.Name, action)
 			}
 		case "augment":
 			for _, a := range fv.Interface().([]*Augment) {
